@@ -54,8 +54,12 @@ func c03Subject(pairs []int, sep int) string {
 		k, v := c03Pair(p)
 		parts[i] = k + "=" + v
 	}
-	return strings.Join(parts, c03Seps[sep])
+	// sep >= len(c03Seps): the whole string additionally stands in white space (what a quoted or block scalar keeps)
+	wrap := c03Wraps[sep/len(c03Seps)%len(c03Wraps)]
+	return wrap[0] + strings.Join(parts, c03Seps[sep%len(c03Seps)]) + wrap[1]
 }
+
+var c03Wraps = [][2]string{{"", ""}, {"", " "}, {"", "\n"}, {"  ", "  "}, {"", "\t"}, {"\n", ""}}
 
 func c03Enumerate(tier string, yield func(any)) {
 	np := c03NPairs()
@@ -178,12 +182,12 @@ func c03Exec(x *engine.Ctx, cc any) {
 			return
 		}
 		var n int64
-		for sep := range c03Seps {
+		for sep := 0; sep < len(c03Seps)*len(c03Wraps); sep++ {
 			c03CheckParsed(x, c03Subject([]int{c.First}, sep), &c03Case{Kind: "parse", Pairs: []int{c.First}, Sep: sep})
 			n++
 		}
 		for j := 0; j < np; j++ {
-			for sep := range c03Seps {
+			for sep := 0; sep < len(c03Seps)*len(c03Wraps); sep++ {
 				c03CheckParsed(x, c03Subject([]int{c.First, j}, sep), &c03Case{Kind: "parse", Pairs: []int{c.First, j}, Sep: sep})
 				n++
 			}
@@ -443,7 +447,7 @@ func init() {
 	register(&engine.Check{
 		ID:          "C03",
 		Level:       "exploration",
-		Rule:        "subject strings over 11 keys (9 short names, 2 dotted OIDs) x 9 values (ASCII, inner double space, punctuation, non-ASCII, 64 and 200 characters, a value in double quotes, single quotes and brackets): every sequence of length 1..3 (4.6e5, with 4 separator spellings) through config.ParseRDNSequence vs. the documented grammar; every sequence of length 1..2 and every cyclic window of length 3..8 with rotating values through whole certificate generation without profile, with a profile listing the subject's attributes, and the same with allowOther (quick thins the profile variants of length-2 subjects to a third); 8 serials x 6 x 6 unique-id settings x {no profile, extension-only profile, subject-constraining profile} x {self-signed, issued with own key, issued for a request-only artifact}; 8 two-run forests for serial freshness, and 4 times three back-to-back processes of the built binary (serials distinct across processes started within one second); configuration files with a comment block of 1 KiB .. 1 MiB in front of each top-level key or at the end, and a subject value of that length (configured serial and unique ids must arrive). Oracle: one single-valued RDN per pair in reversed order, documented OID, text unchanged, UTF8String or (in repertoire) PrintableString, identical with and without profile; configured serial/unique ids bit for bit. non-trivial = distinct case that reached the comparison",
+		Rule:        "subject strings over 11 keys (9 short names, 2 dotted OIDs) x 9 values (ASCII, inner double space, punctuation, non-ASCII, 64 and 200 characters, a value in double quotes, single quotes and brackets): every sequence of length 1..3 (4.6e5, with 4 separator spellings; lengths 1 and 2 also with the whole string standing in white space: trailing blank, line break or tab, leading line break, blanks on both sides) through config.ParseRDNSequence vs. the documented grammar; every sequence of length 1..2 and every cyclic window of length 3..8 with rotating values through whole certificate generation without profile, with a profile listing the subject's attributes, and the same with allowOther (quick thins the profile variants of length-2 subjects to a third); 8 serials x 6 x 6 unique-id settings x {no profile, extension-only profile, subject-constraining profile} x {self-signed, issued with own key, issued for a request-only artifact}; 8 two-run forests for serial freshness, and 4 times three back-to-back processes of the built binary (serials distinct across processes started within one second); configuration files with a comment block of 1 KiB .. 1 MiB in front of each top-level key or at the end, and a subject value of that length (configured serial and unique ids must arrive). Oracle: one single-valued RDN per pair in reversed order, documented OID, text unchanged, UTF8String or (in repertoire) PrintableString, identical with and without profile; configured serial/unique ids bit for bit. non-trivial = distinct case that reached the comparison",
 		Bound:       map[string]string{"subject length": "parser 1..3 exhaustive (thorough 1..4: 3.5e7), generation 1..2 exhaustive (thorough: length 3 over 11 keys x 2 values), 3..8 windows", "values": "7"},
 		Assumptions: []string{"values containing , = \\ or a leading # are outside the documented grammar that reaches the parser", "fresh-serial collisions have probability about 2^-150"},
 		Budget:      budgets(quickBudget, thoroughBudget),
